@@ -57,6 +57,9 @@ func startScopeServer(c *Ctx, sw *ScopeWS, tag string) (*Workspace, *Server, err
 		}
 	}
 	for _, f := range sw.Files {
+		if sw.LazyOpen {
+			break
+		}
 		srv.DidOpen(ws.URI(f.Rel), f.Text)
 	}
 	if err := srv.Fence(); err != nil {
@@ -66,6 +69,14 @@ func startScopeServer(c *Ctx, sw *ScopeWS, tag string) (*Workspace, *Server, err
 		return nil, nil, err
 	}
 	return ws, srv, nil
+}
+
+// lazyOpen opens the document of f now if the workspace is one whose documents are opened on first use.
+func lazyOpen(srv *Server, ws *Workspace, sw *ScopeWS, f *SFile) {
+	if sw.LazyOpen {
+		srv.DidOpen(ws.URI(f.Rel), f.Text)
+		srv.Fence()
+	}
 }
 
 // queryable reports whether the occurrence is in the scope of the C05/C06/C11/C12 oracles.
@@ -89,6 +100,9 @@ func runC05(c *Ctx) {
 		if r.Fork(0x726f6f74).Chance(1, 8) {
 			sw.Reroot([]string{"rootA", "rootB"}) // the files are spread over two workspace folders next to each other
 			c.Count("multi_root_workspaces", 1)
+		} else if len(sw.Files) >= 2 && r.Fork(0x73707264).Chance(1, 8) {
+			sw.Spread()
+			c.Count("workspaces_with_same_named_sub_directories", 1)
 		}
 		c.Eval(1)
 		checkC05WS(c, sw, fmt.Sprintf("c05w%d", i))
@@ -114,6 +128,7 @@ func checkC05WS(c *Ctx, sw *ScopeWS, tag string) {
 	defer ws.Remove()
 	defer srv.Close()
 	for _, f := range sw.Files {
+		lazyOpen(srv, ws, sw, f)
 		uri := ws.URI(f.Rel)
 		for _, o := range f.Bind.Occs {
 			if !queryable(o) {
